@@ -45,6 +45,12 @@ def check(run):
     _common.fresh_hits(run, "C11")
     # the canonical value of a URL / IP and the validators that decide whether a candidate is reported at all are C10's rules
     _common.delegate(run, "C10", lambda rule, key: rule in ("R4-percent", "R2-validators") or key.endswith("parse_ip/value-is-compressed-form"), floor=9)
+    # "found at any offset" makes detection a function of the data of this call: no decoder of the property (or a helper it reaches)
+    # may write state that outlives the call - a verdict cache keyed more coarsely than the verdict drops later hits (seed u18). C09's effect rule.
+    from ..model import call_graph, reachable
+    _roots = [fi for fi in prog.decorated_decoders() if fi.module.short in ("decoders.network", "decoders.filename", "decoders.pe_file", "decoders.path")]
+    _reach = {fi.fq for fi in reachable(call_graph(prog), _roots)} | {fi.fq for fi in _roots}
+    _common.delegate(run, "C09", lambda rule, key: rule == "R3-shared-writes" and (key == "stores-census" or any(key.startswith(fq + "/") for fq in _reach)), floor=1)
     nm = prog.mod("decoders.network")
     fm = prog.mod("decoders.filename")
     w = lambda m: f"{m.rel}:1"   # noqa: E731
